@@ -343,7 +343,9 @@ namespace foonathan
                 if (auto remaining = std::size_t(block_end() - stack_.top()))
                 {
                     auto offset = detail::align_offset(stack_.top(), detail::max_alignment);
-                    if (offset < remaining)
+                    // the rest must be big enough for the pool to build at least one node in it
+                    auto min_size = pool_type::type::min_block_size(pool.node_size(), 1);
+                    if (offset < remaining && remaining - offset >= min_size)
                     {
                         detail::debug_fill(stack_.top(), offset, debug_magic::alignment_memory);
                         pool.insert(stack_.top() + offset, remaining - offset);
